@@ -13,7 +13,7 @@ def run(ctx):
     # every transition of the abstract state graph (graph x registry) reached within the history bound
     # (one worker: strict breadth-first order, so the generated set does not depend on scheduling)
     scripts = ctx.tlc_gen("MC_CypherWrite", gen("C11", 3, 1, 4 if q else 6, inv=INV, props=PROPS), "cover", timeout=3000, workers=1)
-    scripts = cap(ctx, scripts, 4000 if q else 60000, "cover")
+    scripts = cap(ctx, scripts, 6000 if q else 60000, "cover")
     # long random histories: stale index entries need value changes, removals, deletions and id reuse to line up
     walks = sim_walks(ctx, gen("C11", 3, 1, 12, view=False, emit="", inv=INV, sim=True), "walks", 300 if q else 4000, 14)
     ctx.assume("<= 3 live nodes addressed through a tag property p (label-less MATCH (n {p: tag}), so no index is involved in "
